@@ -182,6 +182,7 @@ func genHistoryNames(sys *Sys, r *rand.Rand, w *vh.NDJSONWriter, res *vh.Result,
 		callers := map[string][]RuleJ{"su": suRules, "c1": genRules(), "c2": genRules(), "c3": genRules()}
 		names := []string{namePool[r.Intn(len(namePool))], namePool[r.Intn(len(namePool))], namePool[r.Intn(len(namePool))]}
 		broken := 0
+		pendingRelist, lastReadName, lastX := "", "", 0
 		for ev := 0; ev < nev; ev++ {
 			if broken > 0 {
 				broken--
@@ -201,17 +202,29 @@ func genHistoryNames(sys *Sys, r *rand.Rand, w *vh.NDJSONWriter, res *vh.Result,
 			who := "su"
 			if r.Intn(5) < 2 {
 				who = []string{"c1", "c2", "c3"}[r.Intn(3)]
-				if r.Intn(6) == 0 {
-					// the same principal comes back with another grant (policy changed, or another node of the same
-					// user): every call is decided on the rules presented with it
-					callers[who] = genRules()
-				}
+			}
+			relist := ""
+			if pendingRelist != "" {
+				// the same principal comes back with another grant (policy changed, or another node of the same user)
+				// and asks the same question again, with nothing written in between: every call is decided on the
+				// rules presented with it
+				who, relist = pendingRelist, pendingRelist
+				callers[who] = genRules()
+				pendingRelist = ""
 			}
 			c := Call{Who: who, Rules: callers[who], Name: names[r.Intn(len(names))], Val: "Nil", Fault: "none"}
 			if r.Intn(12) == 0 {
 				c.Name = namePool[r.Intn(len(namePool))]
 			}
-			switch x := r.Intn(100); {
+			x := r.Intn(100)
+			if relist != "" {
+				x = lastX // the same question again
+				c.Name = lastReadName
+			} else if who != "su" && x >= 30 && x < 68 && (r.Intn(4) == 0 || x >= 63) {
+				pendingRelist = who
+			}
+			lastReadName, lastX = c.Name, x
+			switch {
 			case x < 30:
 				c.Op, c.Val = "put", valToks[r.Intn(len(valToks))]
 			case x < 38:
